@@ -223,7 +223,7 @@ class Client(BaseComponent):
         if event.in_subtree(self):
             self._close()
 
-    def _close(self):
+    def _close(self, announce=True):
         if not self._connected:
             return
 
@@ -238,7 +238,8 @@ class Client(BaseComponent):
         with contextlib.suppress(OSError):
             self._sock.close()
 
-        self.fire(disconnected())
+        if announce:
+            self.fire(disconnected())
 
     @handler('close')
     def close(self):
@@ -394,7 +395,9 @@ class TCPClient(Client):
 
             def on_error(sock, err):
                 self.fire(error(sock, err))
-                self._close()
+                # (the handshake failed: `connected` was never announced, so
+                # there is no `disconnected` to announce either)
+                self._close(announce=False)
 
             self._sock = wrap_socket(
                 self._sock,
